@@ -19,6 +19,7 @@ Ctxs(t, inh, ro) ==
                     [] t.k = "safe"   -> "safe"
                     [] t.k = "obj" /\ "REG" \in t.caps /\ "NILP" \notin t.caps -> "safe"
                     [] t.k = "obj" /\ "SV" \in t.caps /\ ~ro -> "safe"      \* O6: not seen behind an unexported field
+                    [] t.k = "sstr" /\ ~ro -> "safe"
                     [] OTHER -> "none"
       kids == IF t.k = "struct" THEN UNION {Ctxs(t.xs[i], own, ro \/ t.ro[i]) : i \in 1..Len(t.xs)}
               ELSE UNION {Ctxs(t.xs[i], own, ro) : i \in 1..Len(t.xs)}
@@ -42,7 +43,7 @@ DeclClass(ts, role, id) ==
                 ELSE IF role = "ret" /\ t.k = "obj" /\ "SM" \in t.caps /\ "SF" \notin t.caps THEN "S"   \* SafeMessage text
                 ELSE "U"
 TokClass(ts, rt, x) ==
-  IF x >= PTok THEN LET t == TermOfId(ts, x - PTok) IN DeclClass(ts, IF t.k = "string" THEN "val" ELSE "ret", x - PTok)
+  IF x >= PTok THEN LET t == TermOfId(ts, x - PTok) IN DeclClass(ts, IF t.k \in {"string", "sstr"} THEN "val" ELSE "ret", x - PTok)
   ELSE LET e == rt[x - RTok] IN DeclClass(ts, e.rk, e.id)
 
 HasScripts(ts) == \E t \in AllTerms(ts) : t.scr # <<>> \/ t.fscr # <<>>
@@ -120,7 +121,7 @@ Check == lvl = 1 =>
   /\ Holds("WellFormed", ok => (WellFormed(Out(r)) /\ LineSafe(Out(r))))
   \* restorer discipline: a top-level call ends with no override and clean flags
   /\ Holds("Restored", ok => (r.ov = "none" /\ ~r.erroring /\ ~r.panicking
-                               /\ (c.e \in {"Sprint", "Sprintf", "Errorf"} => r.bs.mode = MS)))      \* every printArg gave the mode back
+                               /\ (c.e \in {"Sprint", "Sprintf", "Errorf", "Sprintln"} => r.bs.mode = MS)))      \* every printArg gave the mode back
   /\ Holds("C05", (ok /\ Slice \in {"cls", "qcls", "dir"} /\ ~HasScripts(c.ts) /\ ~HasUnsafeWrapper(c.ts)) => C05Holds(c, r))
   /\ Holds("C06", (ok /\ Slice = "wrap") => C06Holds(c, r))
   /\ Holds("C11", (Slice = "panic") => C11Holds(c, r))
